@@ -199,6 +199,8 @@ def _run(P, tier, seed, rnd, work, notes, t0):
         "oracle_failures": len(failures) + len(extra["failures"]), "make_seconds": round(make_s, 1),
         "coqchk": coqchk, "notes": notes, "exhaustive": False,
     }
+    if hasattr(P, "model_stats") and runners_ok and P.NEEDS_MODEL:
+        cov["model_stats"] = P.model_stats(cases, model)
     cov.update(extra["coverage"])
     ev = {"property_id": P.ID, "tier": tier, "seed": seed, "level": "proof", "coverage": cov,
           "assumptions": list(P.ASSUMPTIONS), "wall_s": round(time.time() - t0, 1), "violations": 1 if violation else 0}
